@@ -55,6 +55,7 @@ def run(repo, rep, tier):
     from . import c04
     L.borrow(repo, rep, "R20.4", "C04", c04._lookup,
              ("builtin-default", "lookup-order", "name-"), minimum=1)
+    L.state_rule(repo, rep)
 
 
 def _routing(repo, rep):
